@@ -98,7 +98,12 @@ func gridItem(id int, s txSpec, placement string) *item {
 		// the grid tx right after a valid tx of the SAME sender in the same block: whatever happens
 		// to the second one, the effects of the first one stay
 		own := gridSender(id)
-		it.blocks = [][][]byte{{evmkit.Call(own, 0, storeAddr, evmkit.StorePut(uint64(id)+7)), t}}
+		// the nonce offset of the grid tx counts from the sender's nonce at ITS position, i.e. after the first tx
+		s2 := s
+		s2.N = s.N + 1
+		t = buildTx(s2, own)
+		// (a key-value transaction: its nonce bump is still in the state journal when the grid tx runs)
+		it.blocks = [][][]byte{{evmkit.KVPut(own, 0, []byte("kO"), []byte(fmt.Sprint("vO", id))), t}}
 	case "between":
 		nb := neighbour(id)
 		it.blocks = [][][]byte{{evmkit.Call(nb, 0, storeAddr, evmkit.StorePut(uint64(id)+1)), t, evmkit.KVPut(nb, 1, []byte("kB"), []byte(fmt.Sprint("vB", id)))}}
